@@ -161,3 +161,23 @@ package stage
 //@   on return assert verdict-map-none: state == stateReceived || state == stateUnknown ==> result == sts.ConfirmNone
 //@   on return assert verdict-is-a-code: result == sts.ConfirmNone || result == sts.ConfirmFailed || result == sts.ConfirmPassed || result == sts.ConfirmWaiting
 //@   on return assert state-of-polled-file: path == pathjoin(s.rootDir, relPath) && lastarg((*Stage).getFileState, 1) == path
+
+// ---------------------------------------------------------------- ordering gate (C04)
+
+//@ func (*Stage).hasPathLock trusted
+//@   modifies nothing
+//@ func (*Stage).getCacheStartTime trusted
+//@   modifies nothing
+//@ func (*Stage).isWaiting trusted
+//@   modifies nothing
+//@ func (*Stage).toWait
+//@   modifies fields(next), entries(s.wait), allof(finalFile)
+
+//@ func (*Stage).isFileReady
+//@   on return assert ready-needs-delivered-predecessor: result ==> old(file.prev) == "" || old(file.prev) == old(file.name) || !(prevState == stateUnknown || prevState == stateReceived || prevState == stateFailed || prevState == stateValidated) || (prevState == stateUnknown && called((*Stage).hasPathLock) && !lastret((*Stage).hasPathLock, 0) && called(sts.ReceiveLogger.WasReceived) && lastret(sts.ReceiveLogger.WasReceived, 0) && lastarg(sts.ReceiveLogger.WasReceived, 1) == old(file.prev))
+//@   on return assert not-ready-is-parked: !result ==> called((*Stage).toWait) && lastarg((*Stage).toWait, 1) == pathjoin(s.rootDir, old(file.prev)) && lastarg((*Stage).toWait, 2) == file
+//@   on return assert ready-is-not-parked: result ==> !called((*Stage).toWait)
+//@   on return assert state-of-predecessor: called((*Stage).getFileState) ==> lastarg((*Stage).getFileState, 1) == pathjoin(s.rootDir, old(file.prev))
+
+//@ func (*Stage).finalizeHandler
+//@   before call (*Stage).finalize assert finalize-needs-ready: called((*Stage).isFileReady) && lastret((*Stage).isFileReady, 0) && lastarg((*Stage).isFileReady, 1) == arg1
